@@ -99,5 +99,9 @@ def run(ctx):
     finally:
         if pdir:
             shutil.rmtree(pdir, ignore_errors=True)
+    if not ctx.quick() and not ctx.replay and model_ok and not ctx.brokens:
+        ck = ctx.coqchk()
+        if ck:
+            cov.update(ck)
     cov["trusted_base_extra"] = list(TRUSTED)
     ctx.finish(cov, assumptions=list(ASSUME))
